@@ -38,6 +38,8 @@ def check(run, ctx) -> None:
     from ..common import seed
     known = findings.Known(run, PROP)
     g.run_corr(run, ctx, CORR, "PyLex (refereed by ast) + Sinks (every renderer vs the real one)", quick=0.8, thorough=6.0)
+    # the sink "scalar default of a dataclass field" through the real DataclassGenerator._get_field_default (theorems claimed from Pog.DcProps)
+    g.run_corr(run, ctx, "vf.corr.dc", "Dc (DataclassGenerator defaults vs Pog.Dc)", quick=0.2, thorough=2.0)
     mod = importlib.import_module(CORR)
     t0 = time.time()
     res = mod.oracle(seed(), g.scale_of(ctx, 0.7, 5.0))
